@@ -79,7 +79,7 @@ NOT_APPLICABLE = {
     "C02": "Fixpoint of formatting is a relation between the writer's emitted bytes and pulldown-cmark's grammar on those bytes (escaping, lazy continuation, tight/loose lists, marker widths): no dataflow/typestate/exhaustiveness rule over iwe's source bounds it, and pinning today's literals would be a frozen-fragment proxy. Its only structural ingredient (determinism) is decided under C16.",
 }
 
-READY = {"C01", "C07", "C08", "C03", "C04", "C05", "C06", "C11", "C12", "C13", "C14", "C15", "C16", "C17", "C18", "C19", "C20"}
+READY = {"C01", "C07", "C08", "C09", "C10", "C03", "C04", "C05", "C06", "C11", "C12", "C13", "C14", "C15", "C16", "C17", "C18", "C19", "C20"}
 
 PENDING = "rules for this property are being built in this session (see DESIGN.md §4); not claimed until the check exists"
 
